@@ -153,6 +153,7 @@ type Exec struct {
 	boxDecl     map[string]bool
 	top         topFrame
 	exceptTerms map[string]string
+	subAlias    map[string]string // name given to a sub-object address -> its defining term
 	curTop      *ssa.Function
 	refine      *refineCtx // non-nil while verifying an implementation against an interface contract
 	inSpec      int // > 0 while symbolically executing Go code inside a spec expression: no definitions, no assumptions
@@ -175,7 +176,7 @@ type specFnInfo struct {
 func newExec(p *Program, w *World) *Exec {
 	e := &Exec{P: p, W: w, S: newScript(), heapSort: map[string]string{}, heapGoTy: map[string]types.Type{}, mapKeySort: map[string]string{}, epochs: map[int]*epochDef{}, epochTop: map[int]string{}, epochMem: map[string]string{},
 		oblCount: map[string]int{}, Assumptions: map[string]bool{}, specFnDone: map[string]*specFnInfo{}, axiomsDone: map[string]bool{},
-		simplePure: map[*ssa.Function]int{}, inlinable: map[*ssa.Function]bool{}, boxDecl: map[string]bool{}, allAllocs: map[string]bool{}, exceptTerms: map[string]string{}, mapKeyCands: map[string][]string{}}
+		simplePure: map[*ssa.Function]int{}, inlinable: map[*ssa.Function]bool{}, boxDecl: map[string]bool{}, allAllocs: map[string]bool{}, exceptTerms: map[string]string{}, subAlias: map[string]string{}, mapKeyCands: map[string][]string{}}
 	e.heapSort[topVar] = "Int"
 	return e
 }
